@@ -1,0 +1,41 @@
+//go:build verif
+
+// Contracts for the verif build tag: //@ comment blocks read by /verif/gocv.
+
+package gqlerrors
+
+import (
+	"github.com/vektah/gqlparser/v2/gqlerror"
+)
+
+var _ gqlerror.List
+
+//@ func NewError
+//@ props C07 C10
+//@ requires err != nil
+//@ ensures[nonnil] result != nil && fresh(result)
+//@ modifies fresh
+//@ end
+
+//@ func FormatError
+//@ props C07 C09 C10
+//@ assumes !(is(err, *gqlerror.Error) && err.(*gqlerror.Error) == nil)
+//@ ensures[nil] err == nil ==> result == nil
+//@ ensures[single] is(err, *Error) ==> len(result) == 1 && result[0] == err.(*Error)
+//@ ensures[list-len] is(err, ErrorList) ==> len(result) == len(err.(ErrorList))
+//@ ensures[list-elems] is(err, ErrorList) ==> forall(k, 0, len(result), result[k] == err.(ErrorList)[k])
+//@ ensures[gql-nonempty] is(err, gqlerror.List) && len(err.(gqlerror.List)) >= 1 ==> len(result) >= 1
+//@ ensures[other] err != nil && !is(err, ErrorList) && !is(err, gqlerror.List) ==> len(result) >= 1
+//@ ensures[fresh] base(result) == 0 || fresh(result)
+//@ modifies fresh
+//@ loop 0 invariant[copy] len(list) == it && forall(k, 0, it, list[k] == e[k]) && (base(list) == 0 || fresh(list))
+//@ loop 2 invariant[nonempty] (it >= 1 ==> len(list) >= 1) && (base(list) == 0 || fresh(list))
+//@ end
+
+//@ func ExtendErrorList
+//@ props C09 C10
+//@ ensures[prefix] len(result) >= len(errs) && forall(k, 0, len(errs), result[k] == old(errs[k]))
+//@ ensures[single] is(err, *Error) ==> len(result) == len(errs) + 1 && result[len(errs)] == err.(*Error)
+//@ ensures[list] is(err, ErrorList) ==> len(result) == len(errs) + len(err.(ErrorList)) && forall(k, 0, len(err.(ErrorList)), result[len(errs)+k] == old(err.(ErrorList)[k]))
+//@ ensures[nonempty] err != nil && !is(err, ErrorList) && !is(err, gqlerror.List) ==> len(result) >= 1
+//@ end
